@@ -106,6 +106,7 @@ func parseJournal(s []byte) ([]jExtent, error) {
 }
 
 type jResult struct {
+	resetDiff  string
 	recs       [][]byte
 	broken     int
 	strictErr  error
@@ -114,13 +115,69 @@ type jResult struct {
 	panicValue any
 }
 
+// readJournal reads the stream twice: with a fresh reader and with a reader
+// that was used on another stream first (opposite strictness, checksums off,
+// left at a position that depends on the stream) and then Reset onto this one
+// - the way DB recovery walks several journal files. Reset's contract is that
+// the reader starts over with the new settings, so both readings must agree;
+// a disagreement is reported in resetDiff.
 func readJournal(stream []byte, strict bool) (res jResult) {
+	res = readJournalVia(stream, strict, false)
+	via := readJournalVia(stream, strict, true)
+	switch {
+	case (res.panicValue == nil) != (via.panicValue == nil):
+		res.resetDiff = fmt.Sprintf("panic %v vs %v", res.panicValue, via.panicValue)
+	case len(res.recs) != len(via.recs):
+		res.resetDiff = fmt.Sprintf("%d records vs %d", len(res.recs), len(via.recs))
+	case res.broken != via.broken || res.cleanEOF != via.cleanEOF || (res.strictErr == nil) != (via.strictErr == nil) || (res.otherErr == nil) != (via.otherErr == nil):
+		res.resetDiff = fmt.Sprintf("broken %d vs %d, clean end %v vs %v, corruption error %v vs %v, other error %v vs %v",
+			res.broken, via.broken, res.cleanEOF, via.cleanEOF, res.strictErr, via.strictErr, res.otherErr, via.otherErr)
+	default:
+		for i := range res.recs {
+			if !bytes.Equal(res.recs[i], via.recs[i]) {
+				res.resetDiff = fmt.Sprintf("record #%d differs", i)
+				break
+			}
+		}
+	}
+	return res
+}
+
+var jPreStream = func() []byte {
+	var b bytes.Buffer
+	w := journal.NewWriter(&b)
+	for _, n := range []int{300, 40000, 10} {
+		ww, _ := w.Next()
+		ww.Write(recBytes(n, n))
+	}
+	w.Close()
+	return b.Bytes()[:len(b.Bytes())-5] // torn last record
+}()
+
+func readJournalVia(stream []byte, strict bool, reset bool) (res jResult) {
 	defer func() {
 		if x := recover(); x != nil {
 			res.panicValue = x
 		}
 	}()
-	jr := journal.NewReader(bytes.NewReader(stream), nil, strict, true)
+	var jr *journal.Reader
+	if !reset {
+		jr = journal.NewReader(bytes.NewReader(stream), nil, strict, true)
+	} else {
+		jr = journal.NewReader(bytes.NewReader(jPreStream), nil, !strict, false)
+		for k := 0; k < len(stream)%4; k++ { // 0-3 records of the other stream (the third is torn)
+			rd, err := jr.Next()
+			if err != nil {
+				break
+			}
+			if k == 1 {
+				io.CopyN(io.Discard, rd, 20000) // leave the reader in the middle of a spanning record
+			} else {
+				io.Copy(io.Discard, rd)
+			}
+		}
+		jr.Reset(bytes.NewReader(stream), nil, strict, true)
+	}
 	for n := 0; n < 1<<20; n++ {
 		rd, err := jr.Next()
 		if err == io.EOF {
@@ -216,6 +273,9 @@ func runJournal(c *JCase) (st jStats, err error) {
 	// round-trip without damage, both modes
 	for _, strict := range []bool{false, true} {
 		res := readJournal(stream, strict)
+		if res.resetDiff != "" {
+			return st, fmt.Errorf("undamaged stream (strict=%v): a reader reused through Reset disagrees with a fresh reader: %s", strict, res.resetDiff)
+		}
 		if res.panicValue != nil {
 			return st, fmt.Errorf("reader panicked on an undamaged stream: %v", res.panicValue)
 		}
@@ -311,6 +371,9 @@ func runJournal(c *JCase) (st jStats, err error) {
 	}
 	for _, strict := range []bool{false, true} {
 		res := readJournal(dmg, strict)
+		if res.resetDiff != "" {
+			return st, fmt.Errorf("damaged stream (strict=%v): a reader reused through Reset disagrees with a fresh reader: %s", strict, res.resetDiff)
+		}
 		if res.panicValue != nil {
 			return st, fmt.Errorf("reader (strict=%v) panicked on a damaged stream: %v", strict, res.panicValue)
 		}
